@@ -17,7 +17,8 @@ TABLES = ['x25519_blocklist_eq']      # Tie B: kernel-checked `table regenerated
 THEOREMS = THEOREMS + vcore.theorems_in("SodiumModel/Properties/C10Fe25.lean", ['val_def', 'fval_def', 'bnd_def', 'bounds_def', 'bounds_chain', 'add_spec', 'sub_spec', 'neg_spec', 'add_sub_tight', 'add_wraps_unbounded', 'premul_no_overflow', 'mul_no_overflow', 'mul_acc_value', 'carry_chain_value', 'mul_spec', 'mul_wrong_beyond_loose', 'sq_spec', 'sq_no_overflow', 'sq2_spec', 'mul32_spec', 'mul32_wrong_for_large_n', 'frombytes_spec', 'reduce_first_q', 'reduce_no_overflow', 'reduce_spec', 'tobytes_spec', 'tobytes_tight', 'reduce_wrong_in_documented_range', 'isnegative_spec', 'iszero_spec', 'cswap_spec', 'cswap_out_of_contract', 'cmov_spec', 'invert_spec', 'pow22523_spec', 'fe25_refines', 'sub_tight_loose_not_loose', 'refinesTL_is_TT', 'ladder_any_field_TT', 'x25519_fe25_eq_ref10', 'x25519_fe25_eq_rfc7748', 'x25519_fe25_clamp', 'x25519_fe25_general', 'x25519_fe25_eq_fe51', 'fe25_eq_spec_ladder'], "Sodium.C10Fe25")
 IMPORTS = IMPORTS + ["SodiumModel.Properties.C10Fe25"]
 IMPORTS = IMPORTS + ["SodiumModel.Properties.C05Asm"]
-IMPORTS = IMPORTS + ["SodiumModel.Properties.C05Asm2"]
+IMPORTS = IMPORTS + ["SodiumModel.Properties.C05Asm2", "SodiumModel.Properties.C05Asm3"]
+THEOREMS = THEOREMS + vcore.theorems_in("SodiumModel/Properties/C05Asm3.lean", ["pack_digit_sum", "pack_stores_readback", "pack_mid_split", "pack_loop_freeze_stores_spec"], "Sodium.C05Asm3")
 THEOREMS = THEOREMS + vcore.theorems_in("SodiumModel/Properties/C05Asm2.lean", ['pack_freeze_exact', 'pack_freeze_canonical', 'pack_freeze_condition', 'pack_loop_freeze_spec', 'pack_stores_exact', 'pack_b2_split', 'pack_byte_values', 'pack_digit'], "Sodium.C05Asm2")
 _TA = ["pack_shape", "pack_loop_exact", "pack_loop_carried", "pack_loop_spec"]     # + C05Asm2 (freeze, byte stores), rebuilt by the same tie
 THEOREMS = THEOREMS + vcore.theorems_in("SodiumModel/Properties/C05Asm.lean", _TA, "Sodium.C05Asm")
